@@ -28,6 +28,7 @@ RULE = (
     "advancing: every source closed/exhausted, every SimLock free, ExitStack exits ran exactly once and those "
     "pending received that instance, cache/property hold no partial entry and a follow-up use works. "
     "Non-trivial: the cancel fired inside the operation; distinct = distinct (scenario, c)."
+    " Extensions of rounds 9-12: exact LRU model after a cancelled call (it evicts nothing); plain callbacks returning a truthy value."
 )
 COMPONENTS = COMPONENTS_BASE
 ASSUMPTIONS = [
